@@ -542,6 +542,9 @@ class _Reader(object):
                 self.fail('ce-out-of-sector', 'continuation area block %d offset %d length %d crosses the block end'
                           % (block, offset, ln), n.dr_offset)
                 break
+            if block < 16 and ln:
+                self.fail('ce-in-system-area', 'continuation area block %d lies in the system area (sectors 0..15)' % block, n.dr_offset)
+                break
             base = block * SECTOR + offset
             if base + ln > len(self.img):
                 self.fail('ce-out-of-volume', 'continuation area block %d lies outside the image' % block, n.dr_offset)
